@@ -5,7 +5,7 @@ import tempfile
 import datetime as dt
 
 from harness.core import Part, ok, viol, discard
-from harness import dp, bv, grammar, bumpref, pep440ref, projgen
+from harness import fuzz, dp, bv, grammar, bumpref, pep440ref, projgen
 from harness.refmodel import PART_FIELD, parts_of, pattern_str, ref_render, ref_parse_all, ref_cal, with_defaults, state_eq_on
 
 ID = "C01"
@@ -240,6 +240,7 @@ def check(case):
 
 PARTS = [
     Part("gate", check=check, strategy=lambda: dp.cases(build, size=256), n={"quick": 48000, "thorough": 1200000}),
+    fuzz.fuzz_part("gate-coverage-guided", build, check, size=256, runs={"quick": 6000, "thorough": 240000}),
 ]
 
 MANIFEST = {
